@@ -222,8 +222,18 @@ class chunks(object):
         #
         raChunkMin = np.zeros(decChunkMax-decChunkMin+1, dtype='i4')
         raChunkMax = np.zeros(decChunkMax-decChunkMin+1, dtype='i4')
+        #
+        # Largest difference in right ascension that a point within
+        # marginSize of (ra, dec) can have.  The flat-sky estimate
+        # marginSize/cosDecMin is too small at high declination.
+        #
+        sinMargin = np.sin(np.deg2rad(marginSize))
+        cosDec = np.cos(np.deg2rad(dec))
+        if sinMargin < cosDec:
+            raMargin = np.rad2deg(np.arcsin(sinMargin/cosDec))
+        else:
+            raMargin = 360.0
         for i in range(decChunkMin, decChunkMax+1):
-            cosDecMin = self.cosDecMin(i)
             raChunkMin[i-decChunkMin] = int(np.floor((ra - self.raBounds[i][0]) *
                                                      float(self.nRa[i]) /
                                                      (self.raBounds[i][self.nRa[i]] - self.raBounds[i][0])))
@@ -237,7 +247,7 @@ class chunks(object):
             keepGoing = True
             while keepGoing and raCheck > -1:
                 if raCheck >= 0 and raCheck < self.nRa[i]:
-                    keepGoing = (ra - self.raBounds[i][raCheck])*cosDecMin < marginSize
+                    keepGoing = (ra - self.raBounds[i][raCheck]) < raMargin
                 else:
                     keepGoing = False
                 if keepGoing:
@@ -247,7 +257,7 @@ class chunks(object):
             keepGoing = True
             while keepGoing and raCheck < self.nRa[i]:
                 if raCheck >= 0 and raCheck < self.nRa[i]:
-                    keepGoing = (self.raBounds[i][raCheck+1]-ra)*cosDecMin < marginSize
+                    keepGoing = (self.raBounds[i][raCheck+1]-ra) < raMargin
                 else:
                     keepGoing = False
                 if keepGoing:
